@@ -73,7 +73,9 @@ Print Assumptions C06_IdentEq3000_spec.
    keywords, trailing blocks differ at will); eol, eol' : any line-ending styles.  Whatever the entry
    point returns on the two texts has the same TUCAN string.
    loopfree3 M: no bond line joins an atom to itself (the pipeline is specified on simple graphs;
-   it follows for M'). *)
+   it follows for M').  Since the readers reject such a bond line, R3.okM M (and R2.okM2000 inside
+   okfile2000) now contains this condition: NonIdentity.okM_loopfree3 / okM2000_loopfree2; the
+   hypothesis is kept so that the statements read as before. *)
 Theorem C06_tucan_v3000_nonidentity :
   forall canon, H1 canon -> H2 canon ->
   forall (M M' : R3.molM) (ch ch' : R3.choices) (eol eol' : nat -> bool),
